@@ -15,7 +15,8 @@ EXPLANATION = (
     'R6.5: version maps flow from the sanitised API parameter into the new '
     'cache, are written and read back into the same field. Decides the '
     'version clause of the statement; what is re-executed beyond that is '
-    'C01/C05.')
+    'C01/C05.'
+    ' R6.5: version maps are written verbatim from, and read back into, the field get_func_version reads; an absent version reads as None.')
 
 
 def r6_1(ctx, rc):
